@@ -743,3 +743,231 @@ Check unit_fields_of_root : forall (d : dwarf) (h : unit_header) (attrs : list r
 Check unit_new_fields. Check unit_new_errors. Check str_offsets_base_default. Check attr_string_resolves.
 Check attr_line_string_resolves. Check attr_address_resolves. Check make_dwo_inherits. Check copy_relocated_inherits.
 Check split_unit_context. Check unit_glue_no_panic.
+
+(* ================================================================== continuation: lookup_offset_id, dwo_name, unit_ranges,
+   no panic from the section bytes on *)
+
+(* lookup_offset_id_scan: with every section inside the address space (start + length < 2^64, as for any slice),
+   Dwarf::lookup_offset_id never fails and is the exhaustive scan of the searched sections in the coded order,
+   main file first: abbrev, addr, aranges, info, line, line_str, str, str_offsets, types, loc, loclists, ranges,
+   rnglists; then the same list in the supplementary file. *)
+Theorem lookup_offset_id_scan : forall dbg place sup id,
+  placed_ok place -> (forall sp, sup = Some sp -> placed_ok sp) ->
+  lookup_offset_id dbg place sup id = Ok (lookup_spec place sup id).
+Proof. exact lookup_offset_id_spec. Qed.
+
+(* lookup_offset_id_correct: an id that lies inside section S of the main file at offset o (one past the end
+   included) is reported as (false, S, o) provided no section coded BEFORE S contains it: on a boundary shared by
+   two sections the FIRST in the coded order wins, whatever the order of the sections in memory. *)
+Theorem lookup_offset_id_correct : forall dbg place sup id pre S post o,
+  placed_ok place -> (forall sp, sup = Some sp -> placed_ok sp) ->
+  lookup_order = pre ++ S :: post ->
+  id = fst (place S) + o -> o <= snd (place S) ->
+  forallb (fun s => negb (inb place id s)) pre = true ->
+  lookup_offset_id dbg place sup id = Ok (Some (false, S, o)).
+Proof. exact lookup_inside. Qed.
+
+(* ... in the supplementary file when no searched section of the main file contains it *)
+Theorem lookup_offset_id_correct_sup : forall dbg place sp id pre S post o,
+  placed_ok place -> placed_ok sp ->
+  lookup_order = pre ++ S :: post ->
+  id = fst (sp S) + o -> o <= snd (sp S) ->
+  forallb (fun s => negb (inb place id s)) lookup_order = true ->
+  forallb (fun s => negb (inb sp id s)) pre = true ->
+  lookup_offset_id dbg place (Some sp) id = Ok (Some (true, S, o)).
+Proof. exact lookup_inside_sup. Qed.
+
+(* ... and an id in no searched section of either file is None *)
+Theorem lookup_offset_id_none : forall dbg place sup id,
+  placed_ok place -> (forall sp, sup = Some sp -> placed_ok sp) ->
+  forallb (fun s => negb (inb place id s)) lookup_order = true ->
+  (forall sp, sup = Some sp -> forallb (fun s => negb (inb sp id s)) lookup_order = true) ->
+  lookup_offset_id dbg place sup id = Ok None.
+Proof. exact lookup_none. Qed.
+
+(* lookup_offset_id_unsearched (an observation about the code, confirmed on gimli by c17.lookup; not a property
+   violation): exactly .debug_macinfo, .debug_macro and .debug_names are never asked, so an id that lies only
+   inside one of them is reported as belonging to no section (format_error then prints no location). *)
+Theorem lookup_offset_id_unsearched :
+  (forall s, ~ In s lookup_order <-> s = SMacinfo \/ s = SMacro \/ s = SNames) /\
+  (forall dbg place sup id s,
+     placed_ok place -> (forall sp, sup = Some sp -> placed_ok sp) ->
+     s = SMacinfo \/ s = SMacro \/ s = SNames -> inb place id s = true ->
+     (forall t, In t lookup_order -> inb place id t = false) ->
+     (forall sp t, sup = Some sp -> In t lookup_order -> inb sp id t = false) ->
+     lookup_offset_id dbg place sup id = Ok None).
+Proof. split; [exact unsearched_sections|exact lookup_unsearched]. Qed.
+
+(* .debug_info at [100,110], .debug_abbrev at [110,120], .debug_macro at [200,210], everything else empty at 0 *)
+Definition ex_place (s : sid) : N * N :=
+  match s with SInfo => (100, 10) | SAbbrev => (110, 10) | SMacro => (200, 10) | _ => (0, 0) end.
+Example ex_lookup :
+  placed_ok ex_place /\
+  lookup_offset_id true ex_place None 105 = Ok (Some (false, SInfo, 5)) /\
+  lookup_offset_id true ex_place None 110 = Ok (Some (false, SAbbrev, 0)) /\   (* shared boundary: abbrev is coded first *)
+  lookup_offset_id true ex_place None 205 = Ok None /\                           (* inside .debug_macro *)
+  lookup_offset_id true ex_place (Some ex_place) 121 = Ok None /\
+  lookup_offset_id true (fun _ => (0, 0)) (Some ex_place) 120 = Ok (Some (true, SAbbrev, 10)).
+Proof.
+  split; [intros s; destruct s; vm_compute; reflexivity|]. vm_compute. repeat split; reflexivity.
+Qed.
+
+(* dwo_name_spec: when the first entry of the unit is a DIE (not a null entry) it is the root Unit::new used, and
+   dwo_name is the value of the FIRST DW_AT_dwo_name (DWARF 5) / DW_AT_GNU_dwo_name (before) of that entry, None
+   without one; the other name is never consulted. After a leading null entry (which Unit::new skips) it is
+   MissingUnitDie. *)
+Theorem dwo_name_spec : forall dbg u c c' root,
+  entries dbg (un_header u) = Ok c ->
+  next_entry dbg (u_enc (un_header u)) (un_abbrevs u) c = Ok (SOk true c') -> current c' = Some root ->
+  root_dfs dbg (un_header u) (un_abbrevs u) = Ok root /\
+  dwo_name dbg u =
+  Ok (option_map val (first_attr (named (dwo_name_attr (version (u_enc (un_header u))))) (d_attrs root))).
+Proof. exact dwo_name_root. Qed.
+
+Theorem dwo_name_after_null : forall dbg u c b c',
+  entries dbg (un_header u) = Ok c ->
+  next_entry dbg (u_enc (un_header u)) (un_abbrevs u) c = Ok (SOk b c') -> current c' = None ->
+  dwo_name dbg u = Err EMissingUnitDie.
+Proof. exact dwo_name_leading_null. Qed.
+
+(* unit_ranges_spec: unit_ranges is C08's die_ranges of the root entry Unit::new used, in the unit's context
+   (uctx_of: the unit's low_pc, addr_base, rnglists_base and the Dwarf's .debug_addr/.debug_ranges/.debug_rnglists) *)
+Theorem unit_ranges_spec : forall dbg d u root,
+  root_dfs dbg (un_header u) (un_abbrevs u) = Ok root ->
+  unit_ranges dbg d u = ListsRd.die_ranges (uctx_of d u) (map die_attr_view (d_attrs root)) /\
+  unit_ranges_all dbg d u = ListsRd.die_ranges_all dbg (uctx_of d u) (map die_attr_view (d_attrs root)).
+Proof. exact unit_ranges_root. Qed.
+
+(* ... composed with C08 (Properties/C08.v helpers_ranges_attribute / helpers_ranges_index /
+   helpers_low_high_constant — the same lemmas of Proofs/ListsRdProofs.v), stated on the attributes as read:
+   DW_AT_ranges first among low_pc/high_pc/ranges: C08's resolution (ranges_all, with its theorems
+   resolve_refines / nonempty_below_tombstone) of the list it designates, base address = the unit's low_pc *)
+Theorem unit_ranges_of_list : forall dbg d u root pre p post o,
+  root_dfs dbg (un_header u) (un_abbrevs u) = Ok root ->
+  d_attrs root = pre ++ p :: post -> forallb glue_other pre = true ->
+  nm p = Attr.DW_AT_ranges -> val p = VRangeListsRef o ->
+  let x := uctx_of d u in
+  unit_ranges_all dbg d u =
+  ListsRd.ranges_all dbg (ListsRd.u_cfg x) (ListsRd.u_lctx x) (dw_ranges d) (dw_rnglists d)
+    (if dw_dwo d && (version (u_enc (un_header u)) <? 5) then (o + un_rnglists_base u) mod two64 else o)
+    (un_low_pc u).
+Proof. exact unit_ranges_list. Qed.
+
+Theorem unit_ranges_of_index : forall dbg d u root pre p post i off,
+  root_dfs dbg (un_header u) (un_abbrevs u) = Ok root ->
+  d_attrs root = pre ++ p :: post -> forallb glue_other pre = true ->
+  nm p = Attr.DW_AT_ranges -> val p = VDebugRngListsIndex i ->
+  N.of_nat (length (dw_rnglists d)) < two64 ->
+  offset_table (dw_be d) (fmt64 (u_enc (un_header u))) (dw_rnglists d) (un_rnglists_base u) i = Some off ->
+  off < two64 ->
+  let x := uctx_of d u in
+  unit_ranges_all dbg d u =
+  ListsRd.ranges_all dbg (ListsRd.u_cfg x) (ListsRd.u_lctx x) (dw_ranges d) (dw_rnglists d) off (un_low_pc u).
+Proof. exact unit_ranges_listx. Qed.
+
+(* no DW_AT_ranges: low_pc (address) + high_pc (constant) = [low, low + n), AddressOverflow past 2^64 *)
+Theorem unit_ranges_of_low_high : forall dbg d u root pre p1 mid p2 post lo n,
+  root_dfs dbg (un_header u) (un_abbrevs u) = Ok root ->
+  d_attrs root = pre ++ p1 :: mid ++ p2 :: post ->
+  forallb glue_other pre = true -> forallb glue_other mid = true -> forallb glue_other post = true ->
+  nm p1 = DW_AT_low_pc -> val p1 = VAddr lo -> nm p2 = DW_AT_high_pc -> val p2 = VUdata n ->
+  unit_ranges dbg d u =
+  if lo + n <? two64 then Ok (ListsRd.RiSingle (Some (lowhigh_const lo n))) else Err EAddressOverflow.
+Proof. exact unit_ranges_low_high. Qed.
+
+(* none of the three attributes: the empty iterator *)
+Theorem unit_ranges_of_nothing : forall dbg d u root,
+  root_dfs dbg (un_header u) (un_abbrevs u) = Ok root -> forallb glue_other (d_attrs root) = true ->
+  unit_ranges dbg d u = Ok (ListsRd.RiSingle None) /\ unit_ranges_all dbg d u = Ok [].
+Proof. exact unit_ranges_empty. Qed.
+
+(* parsed_header_arith: for EVERY header the C02 parser model returns, on any bytes: the entries are a part of the
+   unit_length bytes, initial length + unit_length fits the section, and the address size is 1, 2, 4 or 8 —
+   so header_size / EntriesCursor::new cannot overflow or underflow *)
+Theorem parsed_header_arith : forall bigend types uoff bs h after,
+  parse_unit_header bigend types uoff bs = Ok (h, after) ->
+  nlen (u_entries h) <= u_length h /\
+  initial_length_size (fmt64 (u_enc h)) + u_length h + nlen after = nlen bs /\
+  valid_asize (address_size (u_enc h)) = true.
+Proof. exact parse_unit_header_sizes. Qed.
+
+(* unit_glue_no_panic_bytes: the hypothesis of unit_glue_no_panic discharged. For ALL section contents (unit
+   sections shorter than 2^63 bytes, as any slice is), both build modes: reading the first header, Unit::new on it,
+   and unit_ranges / dwo_name on any unit with that header neither panic nor run out of fuel. *)
+Theorem unit_glue_no_panic_bytes : forall dbg d types,
+  nlen (dw_info d) < two63 -> nlen (dw_types d) < two63 ->
+  ListsRdProofs.good (first_header d types) /\
+  forall h, first_header d types = Ok (Some h) ->
+    ListsRdProofs.good (unit_new dbg d h) /\
+    forall u, un_header u = h ->
+      ListsRdProofs.good (unit_ranges_all dbg d u) /\ ListsRdProofs.good (dwo_name dbg u).
+Proof. exact glue_good_bytes. Qed.
+
+(* a DWARF 4 unit whose root has DW_AT_GNU_dwo_name "a", DW_AT_GNU_dwo_name "b", DW_AT_ranges (sec_offset 0) *)
+Definition ex_glue4_dwarf : dwarf :=
+  mkDwarf false
+          [x01; x11; x00;  xb0; x42; x08;  xb0; x42; x08;  x55; x17;  x00; x00; x00]%byte
+          [] []
+          [x10; x00; x00; x00;  x04; x00;  x00; x00; x00; x00;  x08;  x01;  x61; x00;  x62; x00;  x00; x00; x00; x00]%byte
+          [] [] [] [] [] [] [] [] [] []
+          [x10; x00; x00; x00; x00; x00; x00; x00;  x20; x00; x00; x00; x00; x00; x00; x00;
+           x00; x00; x00; x00; x00; x00; x00; x00;  x00; x00; x00; x00; x00; x00; x00; x00]%byte
+          [] false None.
+Example ex_glue4 :
+  match first_header ex_glue4_dwarf false with
+  | Ok (Some h) =>
+      match unit_new true ex_glue4_dwarf h with
+      | Ok u =>
+          (match entries true h with
+           | Ok c => match next_entry true (u_enc h) (un_abbrevs u) c with
+                     | Ok (SOk true c') => current c' <> None
+                     | _ => False
+                     end
+           | _ => False
+           end) /\
+          dwo_name true u = Ok (Some (VString [x61]%byte)) /\              (* the first occurrence *)
+          unit_ranges_all true ex_glue4_dwarf u = Ok [ListsRd.EvItem (16, 32)]
+      | _ => False
+      end
+  | _ => False
+  end.
+Proof. vm_compute. repeat split; try reflexivity. discriminate. Qed.
+
+Check lookup_offset_id_scan. Check lookup_offset_id_correct. Check lookup_offset_id_correct_sup. Check lookup_offset_id_none.
+Check lookup_offset_id_unsearched. Check dwo_name_spec. Check dwo_name_after_null. Check unit_ranges_spec.
+Check unit_ranges_of_list. Check unit_ranges_of_index. Check unit_ranges_of_low_high. Check unit_ranges_of_nothing.
+Check parsed_header_arith. Check unit_glue_no_panic_bytes.
+
+(* the usual producer order — DW_AT_low_pc (address) and DW_AT_high_pc before DW_AT_ranges — gives the same: what
+   was collected from low_pc / high_pc is irrelevant once DW_AT_ranges designates a list (`glue_benign`: any
+   attribute other than ranges, an indexed low_pc or an ill-classed low_pc / high_pc) *)
+Theorem unit_ranges_of_list_after_low_pc : forall dbg d u root pre p post o,
+  root_dfs dbg (un_header u) (un_abbrevs u) = Ok root ->
+  d_attrs root = pre ++ p :: post -> forallb glue_benign pre = true ->
+  nm p = Attr.DW_AT_ranges -> val p = VRangeListsRef o ->
+  let x := uctx_of d u in
+  unit_ranges_all dbg d u =
+  ListsRd.ranges_all dbg (ListsRd.u_cfg x) (ListsRd.u_lctx x) (dw_ranges d) (dw_rnglists d)
+    (if dw_dwo d && (version (u_enc (un_header u)) <? 5) then (o + un_rnglists_base u) mod two64 else o)
+    (un_low_pc u).
+Proof. exact unit_ranges_list_after_low_pc. Qed.
+
+Theorem unit_ranges_of_index_after_low_pc : forall dbg d u root pre p post i off,
+  root_dfs dbg (un_header u) (un_abbrevs u) = Ok root ->
+  d_attrs root = pre ++ p :: post -> forallb glue_benign pre = true ->
+  nm p = Attr.DW_AT_ranges -> val p = VDebugRngListsIndex i ->
+  N.of_nat (length (dw_rnglists d)) < two64 ->
+  offset_table (dw_be d) (fmt64 (u_enc (un_header u))) (dw_rnglists d) (un_rnglists_base u) i = Some off ->
+  off < two64 ->
+  let x := uctx_of d u in
+  unit_ranges_all dbg d u =
+  ListsRd.ranges_all dbg (ListsRd.u_cfg x) (ListsRd.u_lctx x) (dw_ranges d) (dw_rnglists d) off (un_low_pc u).
+Proof. exact unit_ranges_listx_after_low_pc. Qed.
+
+Example ex_glue_benign :
+  forallb glue_benign [(mkSpec DW_AT_name 8 0%Z, VString [x61]%byte); (mkSpec DW_AT_low_pc 1 0%Z, VAddr 4096);
+                       (mkSpec DW_AT_high_pc 6 0%Z, VData4 16)] = true /\
+  glue_benign (mkSpec DW_AT_low_pc 27 0%Z, VDebugAddrIndex 1) = false.
+Proof. vm_compute. split; reflexivity. Qed.
+
+Check unit_ranges_of_list_after_low_pc. Check unit_ranges_of_index_after_low_pc.
